@@ -8,6 +8,28 @@ mod props;
 use serde_json::{json, Value};
 use std::io::{BufRead, Write};
 
+/// Counting allocator: live heap bytes of the process (used by the C10 job to see growth that the rewriter's
+/// own accounting does not report).
+pub struct Counting;
+pub static LIVE_HEAP: std::sync::atomic::AtomicIsize = std::sync::atomic::AtomicIsize::new(0);
+unsafe impl std::alloc::GlobalAlloc for Counting {
+    unsafe fn alloc(&self, l: std::alloc::Layout) -> *mut u8 {
+        LIVE_HEAP.fetch_add(l.size() as isize, std::sync::atomic::Ordering::Relaxed);
+        unsafe { std::alloc::System.alloc(l) }
+    }
+    unsafe fn dealloc(&self, p: *mut u8, l: std::alloc::Layout) {
+        LIVE_HEAP.fetch_sub(l.size() as isize, std::sync::atomic::Ordering::Relaxed);
+        unsafe { std::alloc::System.dealloc(p, l) }
+    }
+    unsafe fn realloc(&self, p: *mut u8, l: std::alloc::Layout, n: usize) -> *mut u8 {
+        LIVE_HEAP.fetch_add(n as isize - l.size() as isize, std::sync::atomic::Ordering::Relaxed);
+        unsafe { std::alloc::System.realloc(p, l, n) }
+    }
+}
+#[global_allocator]
+static GLOBAL: Counting = Counting;
+pub fn live_heap() -> isize { LIVE_HEAP.load(std::sync::atomic::Ordering::Relaxed) }
+
 fn main() {
     let args: Vec<String> = std::env::args().collect();
     driver::silence_panics();
